@@ -177,3 +177,284 @@ Theorem cow_write_leaves_other_roots r st v id :
 Proof.
   intros F H. now destruct (set_item_fresh_frame r st v F) as (_ & _ & R); apply R.
 Qed.
+
+(** * the lift: every edit of the node editor
+    Since 153d253 a copy-on-write reference keeps the container it copied, so
+    "this reference only writes to nodes allocated after address L" is a
+    property of the reference itself. *)
+Fixpoint owned (L : nat) (r : iref) : Prop :=
+  match r with
+  | RCow _ p _ c => match c with Some a => L <= a | None => True end /\ owned L p
+  | _ => True
+  end.
+
+(** nodes below [L] other than the anchor container [b] are as before, the
+    heap only grows, roots other than the anchor resource [br] do not move *)
+Definition frame (L : nat) (b : option nat) (br : option str) (st st' : state) : Prop :=
+  length (st_heap st) <= length (st_heap st') /\
+  (forall a, a < L -> Some a <> b -> hget (st_heap st') a = hget (st_heap st) a) /\
+  (forall id, Some id <> br -> res_root st' id = res_root st id).
+
+Lemma frame_refl L b br st : frame L b br st st.
+Proof. repeat split; auto. Qed.
+Lemma frame_trans L b br s1 s2 s3 : frame L b br s1 s2 -> frame L b br s2 s3 -> frame L b br s1 s3.
+Proof.
+  intros (l1 & a1 & r1) (l2 & a2 & r2). split; [lia|]. split.
+  - intros a Ha Hb. rewrite a2 by assumption. now apply a1.
+  - intros id Hid. rewrite r2 by assumption. now apply r1.
+Qed.
+
+Lemma frame_alloc L b br st n : L <= length (st_heap st) -> frame L b br st (snd (alloc st n)).
+Proof.
+  intros HL. unfold alloc, frame. cbn [snd st_heap with_heap]. split; [rewrite app_length; lia|]. split.
+  - intros a Ha _. apply hget_app_old. lia.
+  - intros id _. reflexivity.
+Qed.
+
+Lemma frame_heap_only L b br st st' :
+  st_heap st' = st_heap st -> st_res st' = st_res st -> frame L b br st st'.
+Proof. intros Hh Hr. unfold frame, res_root. rewrite Hh, Hr. repeat split; auto. Qed.
+
+Lemma set_root_other st id p id' : id' <> id -> res_root (set_root st id p) id' = res_root st id'.
+Proof.
+  intros Hne. unfold set_root, res_root. destruct (alookup id (st_res st)) as [r0|] eqn:E; [|reflexivity].
+  cbn. clear E. induction (st_res st) as [|[k0 r1] m IHm]; cbn.
+  - destruct (str_eqb id' id) eqn:E; [apply str_eqb_eq in E; congruence|reflexivity].
+  - destruct (str_eqb id k0) eqn:E1; cbn.
+    + apply str_eqb_eq in E1. subst k0.
+      destruct (str_eqb id' id) eqn:E; [apply str_eqb_eq in E; congruence|reflexivity].
+    + destruct (str_eqb id' k0); [reflexivity|exact IHm].
+Qed.
+
+Lemma set_item_frame L r : forall st v,
+  L <= length (st_heap st) -> owned L r ->
+  frame L (base_addr r) (base_res r) st (fst (set_item st r v)) /\
+  owned L (snd (set_item st r v)) /\
+  base_addr (snd (set_item st r v)) = base_addr r /\ base_res (snd (set_item st r v)) = base_res r.
+Proof.
+  induction r as [id|a k|a i|isl p IH k copied]; intros st v HL Ho; cbn [set_item fst snd base_addr base_res].
+  - split; [|cbn; auto]. split; [|split].
+    + unfold set_root. destruct (alookup id (st_res st)); cbn; lia.
+    + intros a _ _. unfold set_root. destruct (alookup id (st_res st)); reflexivity.
+    + intros id' Hne. apply set_root_other. congruence.
+  - split; [|cbn; auto].
+    destruct (hget (st_heap st) a) as [[s|l|m]|];
+      try (apply frame_heap_only; reflexivity).
+    unfold frame. cbn [st_heap with_heap]. split; [rewrite hset_length; lia|]. split; [|intros; reflexivity].
+    intros x _ Hx. apply hget_hset_other. congruence.
+  - split; [|cbn; auto].
+    destruct (hget (st_heap st) a) as [[s|l|m]|];
+      try (apply frame_heap_only; reflexivity).
+    unfold frame. cbn [st_heap with_heap]. split; [rewrite hset_length; lia|]. split; [|intros; reflexivity].
+    intros x _ Hx. apply hget_hset_other. congruence.
+  - destruct Ho as [Hc Hp]. destruct copied as [ca|].
+    + cbn [fst snd base_addr base_res owned]. split; [|auto].
+      split; [rewrite cow_write_length; lia|]. split.
+      * intros x Hx _. apply cow_write_old. lia.
+      * intros id _. unfold res_root. now rewrite cow_write_res.
+    + set (cont := if isl then _ else _).
+      match goal with |- context[alloc st ?n] => set (node := n) end.
+      unfold alloc.
+      set (st1 := with_heap st (st_heap st ++ [node])).
+      assert (L1 : length (st_heap st1) = S (length (st_heap st))).
+      { subst st1. cbn. rewrite app_length. cbn. lia. }
+      specialize (IH st1 (Some (length (st_heap st))) ltac:(lia) Hp).
+      destruct (set_item st1 p (Some (length (st_heap st)))) as [st2 p'] eqn:Es. cbn [fst snd] in *.
+      destruct IH as ((l2 & a2 & r2) & Ho2 & B2 & R2).
+      cbn [base_addr base_res owned]. split; [|repeat split; auto].
+      split; [rewrite cow_write_length; lia|]. split.
+      * intros x Hx Hb. rewrite cow_write_old by lia. rewrite a2 by assumption.
+        subst st1. cbn. apply hget_app_old. lia.
+      * intros id Hid. unfold res_root. rewrite cow_write_res.
+        specialize (r2 id Hid). unfold res_root in r2. now rewrite r2.
+Qed.
+
+Lemma owned_strip L n : forall r, owned L r -> owned L (strip_cows n r).
+Proof.
+  induction n as [|n IH]; intros r H; cbn; [exact H|].
+  destruct r; try exact H. apply IH. apply H.
+Qed.
+Lemma base_strip n : forall r, base_addr (strip_cows n r) = base_addr r /\ base_res (strip_cows n r) = base_res r.
+Proof.
+  induction n as [|n IH]; intros r; cbn [strip_cows]; [auto|]. destruct r; auto.
+  cbn [base_addr base_res]. apply IH.
+Qed.
+
+Lemma type_checked_h_owned L st head k t :
+  owned L head -> type_checked_h st head k = Some t ->
+  owned L t /\ base_addr t = base_addr head /\ base_res t = base_res head.
+Proof.
+  intros Ho. unfold type_checked_h. destruct k as [|c k]; [intros H; inversion H; subst; auto|].
+  destruct (deref st (get_item st head)) as [n|].
+  - destruct (if is_list_ref (c :: k) then node_is_list n else node_is_map n); [|discriminate].
+    intros H. inversion H; subst. cbn. auto.
+  - intros H. inversion H; subst. cbn. auto.
+Qed.
+Lemma type_checked_all_h_owned L st ks : forall head t,
+  owned L head -> type_checked_all_h st head ks = Some t ->
+  owned L t /\ base_addr t = base_addr head /\ base_res t = base_res head.
+Proof.
+  induction ks as [|k ks IH]; intros head t Ho H; cbn in H; [inversion H; subst; auto|].
+  destruct (type_checked_h st head k) as [c|] eqn:E; [|discriminate].
+  destruct (type_checked_h_owned L st head k c Ho E) as (Hc & B & R).
+  destruct (IH c t Hc H) as (Ht & B' & R'). repeat split; congruence.
+Qed.
+Lemma traverse_cow_h_owned L st head p t :
+  owned L head -> traverse_cow_h st head p = Some t ->
+  owned L t /\ base_addr t = base_addr head /\ base_res t = base_res head.
+Proof.
+  intros Ho. unfold traverse_cow_h.
+  destruct (match p with [] => true | _ => str_eqb p s_slash end); [intros H; inversion H; subst; auto|].
+  now apply type_checked_all_h_owned.
+Qed.
+
+(* allocate a node, write it through [target] *)
+Lemma alloc_set_frame L st target n :
+  L <= length (st_heap st) -> owned L target ->
+  let '(a', st1) := alloc st n in
+  let '(st2, t') := set_item st1 target (Some a') in
+  frame L (base_addr target) (base_res target) st st2 /\ owned L t' /\
+  base_addr t' = base_addr target /\ base_res t' = base_res target.
+Proof.
+  intros HL Ho. pose proof (frame_alloc L (base_addr target) (base_res target) st n HL) as F1.
+  destruct (alloc st n) as [a' st1] eqn:Ea. cbn [snd] in F1.
+  assert (HL1 : L <= length (st_heap st1)) by (destruct F1; lia).
+  pose proof (set_item_frame L target st1 (Some a') HL1 Ho) as K.
+  destruct (set_item st1 target (Some a')) as [st2 t']. cbn [fst snd] in K.
+  destruct K as (F2 & Ho' & B & R). split; [eapply frame_trans; eauto|auto].
+Qed.
+
+Definition edit_post (L : nat) (st : state) (head : iref) (r : bool * state * iref) : Prop :=
+  frame L (base_addr head) (base_res head) st (snd (fst r)) /\ owned L (snd r) /\
+  base_addr (snd r) = base_addr head /\ base_res (snd r) = base_res head.
+
+Lemma edit_post_keep L st head b : owned L head -> edit_post L st head (b, st, head).
+Proof. intros H. unfold edit_post. cbn. split; [apply frame_refl|auto]. Qed.
+Lemma edit_post_flag L st head b st' :
+  owned L head -> st_heap st' = st_heap st -> st_res st' = st_res st -> edit_post L st head (b, st', head).
+Proof. intros H Hh Hr. unfold edit_post. cbn. split; [now apply frame_heap_only|auto]. Qed.
+
+Lemma merge_loop_h_frame L ed :
+  (forall st tgt k v, L <= length (st_heap st) -> owned L tgt -> edit_post L st tgt (ed st tgt k v)) ->
+  forall m st tgt, L <= length (st_heap st) -> owned L tgt -> edit_post L st tgt (merge_loop_h ed m st tgt).
+Proof.
+  intros Hed. induction m as [|[k v] m IH]; intros st tgt HL Ho; cbn [merge_loop_h].
+  - now apply edit_post_keep.
+  - pose proof (Hed st tgt k v HL Ho) as K.
+    destruct (ed st tgt k v) as [[ok st1] tgt1]. unfold edit_post in K. cbn [fst snd] in K.
+    destruct K as (F1 & Ho1 & B1 & R1).
+    destruct ok; [|unfold edit_post; cbn; auto].
+    assert (HL1 : L <= length (st_heap st1)) by (destruct F1; lia).
+    specialize (IH st1 tgt1 HL1 Ho1). unfold edit_post in *. rewrite B1, R1 in IH.
+    destruct IH as (F2 & Ho2 & B2 & R2). split; [eapply frame_trans; eauto|]. repeat split; congruence.
+Qed.
+
+Lemma edit_node_h_frame L wf : forall st head key value mt,
+  L <= length (st_heap st) -> owned L head ->
+  edit_post L st head (edit_node_h wf st head key value mt).
+Proof.
+  induction wf as [|wf IH]; intros st head key value mt HL Ho.
+  - cbn. now apply edit_post_flag.
+  - cbn [edit_node_h].
+    set (target_opt := if mt then _ else _).
+    set (depth := if mt then _ else _).
+    assert (Ht : forall t, target_opt = Some t ->
+                 owned L t /\ base_addr t = base_addr head /\ base_res t = base_res head).
+    { intros t E. subst target_opt. destruct mt;
+        [eapply type_checked_h_owned|eapply traverse_cow_h_owned]; eauto. }
+    destruct target_opt as [target|]; [|now apply edit_post_keep].
+    destruct (Ht target eq_refl) as (Hot & Bt & Rt).
+    (* the common shape: allocate, write through target, strip *)
+    assert (W : forall n, edit_post L st head
+                  (let '(a', st1) := alloc st n in
+                   let '(st2, target') := set_item st1 target (Some a') in
+                   (true, st2, strip_cows depth target'))).
+    { intros n. pose proof (alloc_set_frame L st target n HL Hot) as K.
+      destruct (alloc st n) as [a' st1]. destruct (set_item st1 target (Some a')) as [st2 t'].
+      destruct K as (F & Ho' & B & R). unfold edit_post. cbn [fst snd]. rewrite <- Bt, <- Rt.
+      split; [exact F|]. split; [now apply owned_strip|].
+      destruct (base_strip depth t') as [b1 b2]. split; congruence. }
+    assert (W0 : edit_post L st head
+                  (let '(st1, target') := set_item st target value in (true, st1, strip_cows depth target'))).
+    { pose proof (set_item_frame L target st value HL Hot) as K.
+      destruct (set_item st target value) as [st1 t']. cbn [fst snd] in K.
+      destruct K as (F & Ho' & B & R). unfold edit_post. cbn [fst snd]. rewrite <- Bt, <- Rt.
+      split; [exact F|]. split; [now apply owned_strip|].
+      destruct (base_strip depth t') as [b1 b2]. split; congruence. }
+    destruct (get_item st target) as [ta|]; [|exact W0].
+    match goal with |- context[if ?c then _ else _] => destruct c end; [|exact W0].
+    destruct value as [va|]; [|now apply edit_post_keep].
+    destruct (hget (st_heap st) va) as [[s|vl|vm]|]; [| | |now apply edit_post_flag].
+    + destruct (is_appending key); [|now apply edit_post_keep].
+      destruct (hget (st_heap st) ta) as [[t|tl|tm]|]; try now apply edit_post_keep.
+      apply W.
+    + destruct (is_appending key); [|now apply edit_post_keep].
+      destruct (hget (st_heap st) ta) as [[t|tl|tm]|]; try (now apply edit_post_flag).
+      * destruct (node_empty (HScalar t)); [apply W|now apply edit_post_keep].
+      * destruct vl as [|x vl]; [now apply edit_post_keep|apply W].
+      * destruct (node_empty (HMap tm)); [apply W|now apply edit_post_keep].
+    + match goal with |- context[if ?c then _ else _] => destruct c end; [|now apply edit_post_keep].
+      pose proof (merge_loop_h_frame L (fun s t k v => edit_node_h wf s t k v true)
+                    (fun s t k v hl ho => IH s t k v true hl ho) vm st target HL Hot) as K.
+      destruct (merge_loop_h _ vm st target) as [[ok st'] t']. unfold edit_post in *. cbn [fst snd] in *.
+      destruct K as (F & Ho' & B & R). rewrite <- Bt, <- Rt.
+      split; [exact F|]. split; [now apply owned_strip|].
+      destruct (base_strip depth t') as [b1 b2]. split; congruence.
+Qed.
+
+Lemma patch_literal_h_frame L wf m : forall st tgt,
+  L <= length (st_heap st) -> owned L tgt -> edit_post L st tgt (patch_literal_h wf m st tgt).
+Proof.
+  induction m as [|[k v] m IH]; intros st tgt HL Ho; cbn [patch_literal_h].
+  - now apply edit_post_keep.
+  - pose proof (edit_node_h_frame L wf st tgt k v false HL Ho) as K.
+    destruct (edit_node_h wf st tgt k v false) as [[ok st1] tgt1]. unfold edit_post in K. cbn [fst snd] in K.
+    destruct K as (F1 & Ho1 & B1 & R1).
+    assert (HL1 : L <= length (st_heap st1)) by (destruct F1; lia).
+    specialize (IH st1 tgt1 HL1 Ho1).
+    destruct (patch_literal_h wf m st1 tgt1) as [[ok' st2] tgt2]. unfold edit_post in *. cbn [fst snd] in *.
+    rewrite B1, R1 in IH. destruct IH as (F2 & Ho2 & B2 & R2).
+    split; [eapply frame_trans; eauto|]. repeat split; congruence.
+Qed.
+
+Lemma include_h_frame L wf st target inc :
+  L <= length (st_heap st) -> owned L target -> edit_post L st target (include_h wf st target inc).
+Proof.
+  intros HL Ho. unfold include_h.
+  pose proof (set_item_frame L target st inc HL Ho) as K.
+  destruct (set_item st target inc) as [st1 t1]. cbn [fst snd] in K. destruct K as (F1 & Ho1 & B1 & R1).
+  assert (HL1 : L <= length (st_heap st1)) by (destruct F1; lia).
+  destruct (as_map st (get_item st target)) as [[a [|e m]]|];
+    try (unfold edit_post; cbn [fst snd]; auto).
+  pose proof (merge_loop_h_frame L (fun s t k v => edit_node_h wf s t k v true)
+                (fun s t k v hl ho => edit_node_h_frame L wf s t k v true hl ho) (e :: m) st1 t1 HL1 Ho1) as K.
+  unfold merge_tree_h. destruct (merge_loop_h _ (e :: m) st1 t1) as [[ok st2] t2].
+  unfold edit_post in *. cbn [fst snd] in *. rewrite B1, R1 in K. destruct K as (F2 & Ho2 & B2 & R2).
+  split; [eapply frame_trans; eauto|]. repeat split; congruence.
+Qed.
+
+(** ** no write through sharing, for every edit the compiler performs
+    (PatchLiteral::Resolve on any patch map, IncludeReference::Resolve with
+    any overrides): with [L] the heap size when the edit starts, no node
+    below [L] other than the container of the dependency's target slot
+    changes, and no root other than the target's own resource moves *)
+Theorem patch_leaves_sources_untouched wf m st tgt :
+  owned (length (st_heap st)) tgt ->
+  frame (length (st_heap st)) (base_addr tgt) (base_res tgt) st (snd (fst (patch_literal_h wf m st tgt))).
+Proof. intros Ho. apply (patch_literal_h_frame _ wf m st tgt (Nat.le_refl _) Ho). Qed.
+
+Theorem include_leaves_sources_untouched wf st tgt inc :
+  owned (length (st_heap st)) tgt ->
+  frame (length (st_heap st)) (base_addr tgt) (base_res tgt) st (snd (fst (include_h wf st tgt inc))).
+Proof. intros Ho. apply (include_h_frame _ wf st tgt inc (Nat.le_refl _) Ho). Qed.
+
+(* and therefore every tree of the old heap that avoids the anchor reads back unchanged *)
+Theorem frame_readback L b br st st' wf q :
+  frame L b br st st' -> L = length (st_heap st) ->
+  avoids wf (st_heap st) (match b with Some a => a | None => L end) q = true ->
+  readback wf (st_heap st') q = readback wf (st_heap st) q.
+Proof.
+  intros (_ & A & _) -> Hav.
+  apply (readback_agree wf _ _ (match b with Some a => a | None => length (st_heap st) end) q); [|exact Hav].
+  intros a Ha Hne. apply A; [exact Ha|]. destruct b; congruence.
+Qed.
